@@ -15,6 +15,7 @@ PROPS = {
     "C04": ("p_grammar", "check_c04"),
     "C06": ("p_analysis", "check_c06"),
     "C08": ("p_server", "check_c08"),
+    "C10": ("p_pos", "check_c10"),
     "C11": ("p_server", "check_c11"),
     "C12": ("p_server", "check_c12"),
     "C17": ("p_analysis", "check_c17"),
